@@ -508,6 +508,20 @@ def generic_function_replay(qualname, model):
         sig = inspect.signature(obj)
     except Exception:  # noqa: BLE001
         return None
+    for k_, v_ in model.items():
+        if k_.startswith("pin_text__") and c is not None and isinstance(v_, dict) and "bytes" in v_:
+            # the witness of a refuted language pin: a text the real regex module accepts under exactly one of the two patterns
+            import regex as _re
+
+            cname = k_[len("pin_text__"):]
+            text = bytes.fromhex(v_["bytes"])
+            code_pat, pinned = getattr(importlib.import_module(modname), cname, None), c.pins.get(cname)
+            if not isinstance(code_pat, bytes) or pinned is None:
+                return None
+            a_, b_ = _re.fullmatch(code_pat, text) is not None, _re.fullmatch(pinned, text) is not None
+            if a_ != b_:
+                return (True, f"the text {text!r} is {'matched' if a_ else 'NOT matched'} as a whole by {cname} = {code_pat!r} and {'matched' if b_ else 'NOT matched'} by the pinned pattern {pinned!r}")
+            return (False, f"the real regex module treats {text!r} alike under both patterns (the difference lies in an erased look-around / anchor)")
     # module-level constants of the function's module (pattern constants named by clauses); never shadowing the specification vocabulary
     modglobals = {k: v for k, v in vars(importlib.import_module(modname)).items() if k.isupper() and isinstance(v, (bytes, str, int))}
     args = {}
